@@ -185,33 +185,17 @@ impl MT104 {
         let field_51a = parser.parse_optional_field::<Field51A>("51A")?;
 
         // Parse optional ordering parties - check variant to determine field type
-        let mut instructing_party = None;
-        let mut creditor = None;
-
-        // Check if field 50 exists and determine its type based on the variant
-        if let Some(variant) = parser.peek_field_variant("50") {
-            match variant.as_str() {
-                "C" | "L" => {
-                    // These variants are for Field50InstructingParty
-                    instructing_party =
-                        parser.parse_optional_variant_field::<Field50InstructingParty>("50")?;
-                }
-                "A" | "K" => {
-                    // These variants are for Field50Creditor
-                    creditor = parser.parse_optional_variant_field::<Field50Creditor>("50")?;
-                }
-                _ => {
-                    // Unknown variant, try both
-                    if let Ok(ip) =
-                        parser.parse_optional_variant_field::<Field50InstructingParty>("50")
-                    {
-                        instructing_party = ip;
-                    } else {
-                        creditor = parser.parse_optional_variant_field::<Field50Creditor>("50")?;
-                    }
-                }
-            }
-        }
+        // Field 50 can occur twice: instructing party (C/L), then creditor (A/K)
+        let instructing_party = if parser.next_field_has_variant("50", &["C", "L"]) {
+            parser.parse_optional_variant_field::<Field50InstructingParty>("50")?
+        } else {
+            None
+        };
+        let creditor = if parser.next_field_has_variant("50", &["A", "K"]) {
+            parser.parse_optional_variant_field::<Field50Creditor>("50")?
+        } else {
+            None
+        };
 
         let field_52 = parser.parse_optional_variant_field::<Field52CreditorBank>("52")?;
         let field_26t = parser.parse_optional_field::<Field26T>("26T")?;
@@ -232,35 +216,16 @@ impl MT104 {
             let field_32b = parser.parse_field::<Field32B>("32B")?;
 
             // Transaction-level optional parties - check variant to determine field type
-            let mut instructing_party_tx = None;
-            let mut creditor_tx = None;
-
-            // Check if field 50 exists and determine its type based on the variant
-            if let Some(variant) = parser.peek_field_variant("50") {
-                match variant.as_str() {
-                    "C" | "L" => {
-                        // These variants are for Field50InstructingParty
-                        instructing_party_tx =
-                            parser.parse_optional_variant_field::<Field50InstructingParty>("50")?;
-                    }
-                    "A" | "K" => {
-                        // These variants are for Field50Creditor
-                        creditor_tx =
-                            parser.parse_optional_variant_field::<Field50Creditor>("50")?;
-                    }
-                    _ => {
-                        // Unknown variant, try both
-                        if let Ok(ip) =
-                            parser.parse_optional_variant_field::<Field50InstructingParty>("50")
-                        {
-                            instructing_party_tx = ip;
-                        } else {
-                            creditor_tx =
-                                parser.parse_optional_variant_field::<Field50Creditor>("50")?;
-                        }
-                    }
-                }
-            }
+            let instructing_party_tx = if parser.next_field_has_variant("50", &["C", "L"]) {
+                parser.parse_optional_variant_field::<Field50InstructingParty>("50")?
+            } else {
+                None
+            };
+            let creditor_tx = if parser.next_field_has_variant("50", &["A", "K"]) {
+                parser.parse_optional_variant_field::<Field50Creditor>("50")?
+            } else {
+                None
+            };
 
             let field_52_tx = parser.parse_optional_variant_field::<Field52CreditorBank>("52")?;
             let field_57 = parser.parse_optional_variant_field::<Field57DebtorBank>("57")?;
